@@ -52,6 +52,18 @@ pub fn scenario(seed: u64, idx: u64) -> Scenario {
             secret_names.push(name);
         }
     }
+    // now and then one of the files outside is large (a dump, a backup): sparse, 1 MiB ... 64 MiB
+    if rng.chance(1, 8) {
+        let j = rng.below(levels.len());
+        let lvl = &levels[j];
+        let name = format!("backup-{}.bin", j);
+        let len: u64 = *rng.pick(&[(1 << 20) + 1, 8 << 20, (16 << 20) - 1, 16 << 20, (16 << 20) + 1, (32 << 20) + 7, (64 << 20) + 5]);
+        entries.push(Entry { path: if lvl.is_empty() { name.clone() } else { format!("{}/{}", lvl, name) }, kind: EntryKind::File(Content::Sparse { len, seed: nonce as u64 }) });
+        // (asked for often in this run)
+        for _ in 0..8 {
+            secret_names.push(name.clone());
+        }
+    }
     // siblings whose name begins with the served directory's name (string-prefix containment checks)
     let parent = if prefix.is_empty() { String::new() } else { format!("{}/", prefix) };
     for (kind, name) in [("prefixsibling", "root-backup/secret.txt"), ("prefixsibling_index", "root-backup/index.html"), ("prefixsibling2", "root2/secret.txt"), ("prefixsibling_html", "rootx.html")] {
